@@ -1,5 +1,5 @@
 """C06 — SQL rendered through SQLAlchemy means the same as the parsed statement."""
-import collections, itertools, json, os, re, sqlite3, warnings
+import collections, itertools, json, os, re, sqlite3, time, warnings
 from tools.harness import common
 from tools.harness import sqlexec as X
 
@@ -11,7 +11,9 @@ THEOREMS = ['MindsVerif.Props.C06.' + n for n in (
     'C06_partial', 'C06_partial_norm', 'C06_nested_partial', 'C06_dml_partial', 'C06_join_kind', 'C06_not_rewrite',
     'C06_regress_1', 'C06_regress_2', 'C06_regress_3', 'C06_regress_4', 'C06_regress_5', 'C06_regress_5b', 'C06_regress_6',
     'C06_regress_7', 'C06_regress_9',
-    'phi6_compatible', 'phi6_ids', 'phi6_flip', 'phi6_join_spellings', 'phi6_join_probe')]
+    'phi6_compatible', 'phi6_ids', 'phi6_flip', 'phi6_join_spellings', 'phi6_join_probe',
+    'C06_setops', 'C06_setops_unsupported', 'C06_setops_query', 'C06_setops_left_chain', 'C06_witness_except_assoc',
+    'C06_witness_10', 'C06_witness_flat_prec', 'C06_setops_accepted', 'C06_setops_accepts', 'C06_witness_rejected', 'C06_from_fresh', 'C06_witness_9', 'C06_witness_9b', 'C06_witness_9c')]
 ASSUME = [
     'Render.saNorm / saRender / saStmt / saSpec / SaParen.saParens are hand models of SqlalchemyRender.get_string (+ the SQLAlchemy '
     'compiler) on the typed fragment; tie = the correspondence streams of this run (render-expr, render-optree, render-join, '
@@ -26,6 +28,19 @@ ASSUME = [
     'the meaning theorems are unconditional on the typed fragment; outside it -- correlated sub-queries, CTEs, window functions, '
     'functions, string values, INSERT…SELECT, DROP TABLE, the mysql / postgres renderings -- only the execution probe applies '
     '(sqlite3 as reference engine)',
+    'RenderSetOps.render is a hand model of prepare_union + SQLAlchemy\'s compound-select compilation per dialect (text structure: '
+    'operand SELECTs, `SELECT * FROM (…) AS anon_k`, parentheses, bare juxtaposition); tie = stream render-setops: the text structure of '
+    'the real renderer\'s output must pass the checker RenderSetOps.accepted (sound by C06_setops_accepted; it admits every mixture of '
+    'delimiting a compound left operand or, for sqlite, continuing the chain) on every tree shape with <= 3 operations over the sqlite '
+    'operators + random deeper trees with all six, x 3 dialects.  RenderSetOps.readLeft (sqlite reads a '
+    'bare compound chain left to right at one level) and setRows are compared with sqlite3 on every run (stream semantics-setops: the '
+    'derived-table form of every tree, the rendered sqlite text, and random bare / partly delimited chains); readPrec (MySQL / PostgreSQL: '
+    'INTERSECT binds tighter, SQL standard) and accepts / hasOp for those two dialects are trusted readings of their documentation',
+    'RenderScope.display / displayAll transcribe SQLAlchemy 2.0 auto-correlation (_get_display_froms, _setup_select_stack: by object '
+    'identity against the from-objects of the immediately enclosing select); allocFresh (to_table builds a new FromClause per reference) is '
+    'pinned on the real renderer by stream render-from-scope (object identity of repeated to_table calls; FROM lists of every nesting '
+    'level of the rendered text, re-read with the library\'s parser).  What a dropped FROM entry does to the rows (correlation) is not '
+    'in a theorem: execution probe',
     'okE (driver flag mod) only delimits where the printed text of the model is compared with SQLAlchemy\'s: NOT directly over a unary '
     'minus of a Boolean-typed operand prints an extra pair of parentheses',
 ]
@@ -685,6 +700,133 @@ SIGS = collections.OrderedDict([
 ])
 
 
+# ------------------------------------------------------------------------------------ round 5: set-operation trees, nested scopes
+DIALECTS = ('sqlite', 'mysql', 'postgres')
+SCOPE_NUM = {'t': 1, 'u': 2, 'x': 7, 'y': 8, 'z': 9}
+
+
+def setop_trees(rng, deep, broken):
+    """every shape with 2 operations over all six operators, every shape with 3 operations over the operators sqlite has,
+    random trees with 3-6 operations (all six operators)"""
+    out = []
+    for shape in X.tree_shapes(2):
+        for ops in itertools.product(X.SETOP_KEYS, repeat=2):
+            out.append(X.tree_fill(shape, iter(ops), iter((0, 1, 2))))
+    for shape in X.tree_shapes(3):
+        for ops in itertools.product(X.SETOP_SQLITE, repeat=3):
+            k = rng.randrange(4)
+            out.append(X.tree_fill(shape, iter(ops), iter([(k + i) % 4 for i in range(4)])))
+    for i in range(3000 if deep else (600 if broken else 160)):
+        keys = X.SETOP_SQLITE if i % 3 else X.SETOP_KEYS
+        out.append(X.tree_random(rng, rng.choice((3, 3, 4, 4, 5, 6)), keys, 4))
+    return out
+
+
+def rtext_random(rng, n):
+    """a random text structure with n operators: bare chains whose operands are operand SELECTs or derived tables"""
+    if n == 0:
+        return ['S%d' % rng.randrange(4)]
+    toks = []
+    k = rng.randint(1, n)           # operators at this level
+    rest = n - k
+    for i in range(k + 1):
+        inner = rng.randint(0, rest) if rng.random() < 0.4 else 0
+        rest -= inner
+        toks += (['D['] + rtext_random(rng, inner) + [']']) if inner else ['S%d' % rng.randrange(4)]
+        if i < k:
+            toks.append(rng.choice(X.SETOP_SQLITE))
+    return toks
+
+
+def rtext_sql(toks):
+    out, n = [], [0]
+    for t in toks:
+        if t == 'D[':
+            out.append('SELECT * FROM (')
+        elif t == ']':
+            n[0] += 1
+            out.append(') AS anon_%d' % n[0])
+        elif t[0] == 'S' and t[1:].isdigit():
+            out.append(X.SETOP_LEAVES[int(t[1:])])
+        else:
+            out.append(t.replace('_', ' '))
+    return ' '.join(out).replace('( ', '(').replace(' )', ')')
+
+
+def bag(rows):
+    return sorted((tuple(r) for r in rows), key=X.skey)
+
+
+def tabs_txt(content):
+    return ' '.join(rows_txt(t) for t in X.setop_tabs(content))
+
+
+def from_entries(ft):
+    """FROM entries of a select of the library's AST: ('t', table, alias) per comma entry, ('j', [(table, alias)…]) for a
+    chain of explicit joins, ('s', None, None) for a derived table"""
+    from mindsdb_sql.parser import ast as A
+
+    def tref(n):
+        return ('.'.join(str(p) for p in n.parts).lower(), str(n.alias.parts[-1]).lower() if n.alias is not None else None)
+
+    def flat(j):
+        if isinstance(j, A.Join):
+            return flat(j.left) + flat(j.right)
+        return [tref(j)] if isinstance(j, A.Identifier) else [('?', None)]
+    if ft is None:
+        return []
+    if isinstance(ft, A.Join):
+        if ft.implicit:
+            return from_entries(ft.left) + from_entries(ft.right)
+        return [('j', flat(ft))]
+    if isinstance(ft, A.Identifier):
+        return [('t',) + tref(ft)]
+    return [('s', None, None)]
+
+
+def direct_subselects(roots):
+    """the Select nodes below `roots` that are not inside another Select"""
+    from mindsdb_sql.parser import ast as A
+    from mindsdb_sql.parser.ast.base import ASTNode
+    out, stack = [], list(roots)
+    while stack:
+        n = stack.pop()
+        if isinstance(n, A.Select):
+            if not any(n is x for x in out):       # (Exists keeps its query under `query` and in `args`)
+                out.append(n)
+        elif isinstance(n, ASTNode):
+            stack.extend(vars(n).values())
+        elif isinstance(n, (list, tuple)):
+            stack.extend(n)
+        elif isinstance(n, dict):
+            stack.extend(n.values())
+    return out
+
+
+def ast_levels(sel):
+    """FROM entries per nesting level along the chain of expression sub-queries (one sub-query per level)"""
+    from mindsdb_sql.parser import ast as A
+    out = []
+    while isinstance(sel, A.Select):
+        out.append(from_entries(sel.from_table))
+        subs = direct_subselects([sel.targets, sel.where])
+        if len(subs) != 1:
+            break
+        sel = subs[0]
+    return out
+
+
+def levels_line(levels):
+    def tr(t, a):
+        return 't%d%s' % (SCOPE_NUM.get(t, 99), '' if a is None else ':%d' % SCOPE_NUM.get(a, 98))
+    return ' ; '.join(' '.join(tr(e[1], e[2]) if e[0] == 't' else ('j,' + ','.join(tr(*m) for m in e[1])) if e[0] == 'j' else 't97'
+                               for e in lv) or '-' for lv in levels)
+
+
+def norm_levels(levels):
+    return [[(e[0], [tuple(m) for m in e[1]]) if e[0] == 'j' else tuple(e) for e in lv] for lv in levels]
+
+
 class Prober:
     """executes original vs rendered text over the databases and attributes a difference to known findings"""
 
@@ -739,7 +881,10 @@ class Prober:
 
     def check(self, case, ast, dialects=('sqlite',)):
         chk = self.chk
-        orig = case['text']
+        text = case['text']
+        # a statement sqlite cannot execute as written (parenthesised set-operation operands) carries the same statement in
+        # a form it can (`exec_text`, written by the generator from the same tree)
+        orig = case.get('exec_text') or text
         for d in dialects:
             rend = render(self.R[d], ast)
             fallback = False
@@ -753,7 +898,7 @@ class Prober:
                     continue
             if d != 'sqlite':
                 rend = rend.replace('`', '"')
-            chk.count((d, orig))
+            chk.count((d, text))
             # oracle clause: the rendered text is complete SQL -- no bind placeholder may be left in it
             if re.search(r':param_\d+', rend) and ':param_' not in orig:
                 diff = dict(kind='unbound-parameter', error='placeholder left in the rendered text', db=self.dbs[0].content)
@@ -782,8 +927,8 @@ class Prober:
                 self.stats['not-common-subset:' + d] += 1    # sqlite cannot run this mysql/postgres text
                 continue
             causes = self.attribute(case, orig, rend, ast, diff, d)
-            f = dict(desc='rendered text differs in effect from the original (%s): %s' % (diff['kind'], orig[:200]),
-                     dialect=d, text=orig, rendered=rend, kind=case['kind'], ordered=case.get('ordered', False),
+            f = dict(desc='rendered text differs in effect from the original (%s): %s' % (diff['kind'], text[:200]),
+                     dialect=d, text=text, exec_text=case.get('exec_text'), rendered=rend, kind=case['kind'], ordered=case.get('ordered', False),
                      alias=case.get('alias', []), order_keys=case.get('order_keys'), diff={k: v for k, v in diff.items() if k != 'db'}, db=diff['db'],
                      causes=causes, feats=case.get('feats', []), from_ast=case.get('from_ast'),
                      **{'class': 'unexplained:' + diff['kind'] if not causes else 'kf:' + '+'.join(causes)})
@@ -876,11 +1021,60 @@ def run(chk):
     lines += ['V %s %s' % (' '.join('n' if v is None else str(v) for v in env), expr_line(t)) for t, env in vl]
     ql = sem_cases(srng, 30000 if deep else 1800)
     lines += [x[0] for x in ql]
+    # round 5 -- set-operation trees: the text structure the real renderer prints per dialect (computed here, the driver reads
+    # it back the way the target does), the model's text, the rows of the tree
+    timing = {}
+    t_mark = time.time()
+    sorng = common.rng_for(chk.seed, 'C06/setops')
+    RD = {d: renderer(d) for d in DIALECTS}
+    so_dbs = X.setop_dbs(sorng, 8 if deep else 5)
+    leaf_txt = {}
+    for d in DIALECTS:
+        leaf_txt[d] = [render(RD[d], parse(t)) for t in X.SETOP_LEAVES]
+    leaf_no = lambda n: X.SETOP_LEAVES.index(str(n)) if str(n) in X.SETOP_LEAVES else None
+    so_cases = []
+    for t in setop_trees(sorng, deep, broken):
+        text = X.tree_sql(t, paren_left=lambda: sorng.random() < 0.5)
+        ast = parse(text)
+        via = 'parser'
+        if ast is None or X.tree_of_ast(ast, leaf_no) != t:
+            # (what the parser makes of the text is C01's matter; the renderer is given the tree itself)
+            ast, via = X.tree_ast(t, lambda i: parse(X.SETOP_LEAVES[i])), 'built'
+        c = dict(tree=t, text=text, ast=ast, via=via, struct={}, rendered={}, dbs=sorng.sample(range(len(so_dbs)), 3 if deep else 2))
+        for d in DIALECTS:
+            r = render(RD[d], ast)
+            c['rendered'][d] = r
+            c['struct'][d] = X.setop_structure(r, leaf_txt[d]) if isinstance(r, str) else '?!' + str(r[1]).split(':')[0]
+        so_cases.append(c)
+    so_base = len(lines)
+    for c in so_cases:
+        tline = X.tree_line(c['tree'])
+        for k in c['dbs']:
+            lines.append('SX %s ; %s ; %s' % (tabs_txt(so_dbs[k]), tline, ' ; '.join(
+                c['struct'][d] if not c['struct'][d].startswith('?') else 'S0' for d in DIALECTS)))
+    # … and the model of sqlite's reading of a compound chain itself: random bare / partly delimited chains
+    rt_cases = [(rtext_random(sorng, sorng.randint(2, 5)), sorng.randrange(len(so_dbs))) for _ in range(2000 if deep else 150)]
+    rt_base = len(lines)
+    lines += ['SR sqlite ; %s ; %s' % (tabs_txt(so_dbs[k]), ' '.join(toks)) for toks, k in rt_cases]
+    # round 5 -- FROM lists of nested expression sub-queries
+    fsrng = common.rng_for(chk.seed, 'C06/scope')
+    fg = X.Gen(fsrng)
+    fs_cases = []
+    for i in range(3000 if deep else (600 if broken else 220)):
+        fg.feats, fg.strs = set(), set()
+        text, _, _ = fg.nested_scope()
+        fs_cases.append(dict(kind='select', text=text, ordered=False, alias=[], feats=sorted(fg.feats), scope_levels=fg.scope_levels,
+                             strs=sorted(fg.strs)))
+    fs_base = len(lines)
+    lines += ['FS fresh ; ' + levels_line(c['scope_levels']) for c in fs_cases]
+    timing['round5-cases'] = round(time.time() - t_mark, 2)
     outs = None
+    t_mark = time.time()
     try:
         outs = common.lean_run('Render', lines)
     except Exception as e:
         chk.oblige('corr:render', 'correspondence', False, 'driver failed: %s' % e)
+    timing['driver'] = round(time.time() - t_mark, 2)
     dist = collections.Counter()
     if outs is not None:
         div, first = 0, None
@@ -1132,6 +1326,138 @@ def run(chk):
                 div += 1
                 first = first or dict(line=line, sql=sql, tables=[s_[1] for s_ in setup], model=o.strip(), sqlite=want)
         chk.corr_result('semantics-query', len(ql), div, first, dict(sd))
+        # --- round 5: set-operation trees
+        t_mark = time.time()
+        so_conn = [X.Db(c) for c in so_dbs]
+        div, first, sdiv, sfirst = 0, None, 0, None
+        sod, ssd = collections.Counter(), collections.Counter()
+        pos = so_base
+        for c in so_cases:
+            t = c['tree']
+            so_out, read = {}, {}
+            for k in c['dbs']:
+                parts = [x.strip() for x in outs[pos].split(' | ')]
+                pos += 1
+                for j, d in enumerate(DIALECTS):
+                    so_out[(d, k)] = [parts[j], parts[3], parts[4], parts[8][4 + j]]
+                    read[(d, k)] = parts[5 + j]
+            nl, nr = X.tree_nesting(t)
+            sod['trees'] += 1
+            sod['depth=%d' % X.tree_depth(t)] += 1
+            sod['nested:' + ('both' if nl and nr else 'left' if nl else 'right' if nr else 'none')] += 1
+            sod['ast-via-' + c['via']] += 1
+            sqlite_ok = so_out[('sqlite', c['dbs'][0])][1] == 'sup=1'
+            # (1) text structure of the real renderer's output, per dialect: is it one of the renderings the theorem covers
+            #     (`accepted d tree text`, sound by C06_setops_accepted; `prepare_union` as transcribed prints `model`)
+            for d in DIALECTS:
+                chk.count(('SO', d, t))
+                model, acc = so_out[(d, c['dbs'][0])][0], so_out[(d, c['dbs'][0])][3]
+                sod['text=model:' + d if c['struct'][d] == model else 'text-other-accepted:' + d if acc == '1' else 'TEXT-NOT-ACCEPTED:' + d] += 1
+                if acc != '1' or c['struct'][d].startswith('?'):
+                    div += 1
+                    first = first or dict(tree=X.tree_line(t), statement=c['text'], dialect=d, model=model, impl=c['struct'][d],
+                                          accepted=False, rendered=c['rendered'][d])
+            # (2) the rows: the tree (Lean `evalTree`), the tree executed by sqlite3 in its derived-table form, the rendered text
+            #     executed by sqlite3, the rendered text of every dialect read the way that dialect reads it (Lean `denote`)
+            ref_sql = X.tree_ref_sql(t)
+            for k in c['dbs']:
+                want = parse_rows(so_out[('sqlite', k)][2])
+                content = so_dbs[k]
+                if sqlite_ok:
+                    ref = X.run_select(so_conn[k].conns[0], ref_sql)
+                    ssd['tree-vs-sqlite3'] += 1
+                    if ref[0] != 'ok' or bag(ref[1]) != bag(want):
+                        sdiv += 1
+                        sfirst = sfirst or dict(what='rows of the tree: model vs sqlite3', tree=X.tree_line(t), sql=ref_sql, db=content,
+                                                model=want, sqlite=ref[1])
+                        continue
+                for d in DIALECTS:
+                    got = read[(d, k)]
+                    st = c['struct'][d]
+                    bad = None
+                    sup = d != 'sqlite' or sqlite_ok
+                    if d == 'sqlite' and sqlite_ok and isinstance(c['rendered'][d], str):
+                        ex = X.run_select(so_conn[k].conns[0], c['rendered'][d])
+                        if ex[0] != 'ok':
+                            bad = dict(kind='rendered-text-fails', error=ex[1], expected_rows=bag(want))
+                        elif bag(ex[1]) != bag(want):
+                            bad = dict(kind='rows-differ', expected_rows=bag(want), rendered_rows=bag(ex[1]), how='sqlite3 execution')
+                        if not st.startswith('?'):
+                            # the model's reading of the text against the real engine's
+                            ssd['reading-vs-sqlite3'] += 1
+                            lean = None if got == '!' else bag(parse_rows(got))
+                            real = None if ex[0] != 'ok' else bag(ex[1])
+                            if lean != real:
+                                sdiv += 1
+                                sfirst = sfirst or dict(what='sqlite reading of a rendered text: model vs sqlite3', text=c['rendered'][d],
+                                                        structure=st, db=content, model=got, sqlite=ex[1])
+                    if bad is None and sup and not st.startswith('?'):
+                        if got == '!':
+                            bad = dict(kind='rendered-text-fails', error='the %s grammar has no such compound operand' % d,
+                                       expected_rows=bag(want), how='target reading (Lean denote)')
+                        elif bag(parse_rows(got)) != bag(want):
+                            bad = dict(kind='rows-differ', expected_rows=bag(want), rendered_rows=bag(parse_rows(got)),
+                                       how='target reading (Lean denote): %s' % ('one level, left to right' if d == 'sqlite' else
+                                                                                 'INTERSECT first, then left to right'))
+                    if bad is None and sup and st.startswith('?!'):
+                        bad = dict(kind='renderer-raises', error=str(c['rendered'][d]), expected_rows=bag(want))
+                    if bad:
+                        sod['DIFFERS:' + d] += 1
+                        chk.fail(dict(desc='rendered set operation does not keep the operand grouping (%s, %s): %s' % (d, bad['kind'], c['text'][:200]),
+                                      kind='setop-tree', dialect=d, text=c['text'], tree=X.tree_line(t), tree_t=t, via=c['via'], rendered=c['rendered'][d],
+                                      structure=st, db=content, diff=bad, kf=None, **{'class': 'unexplained:setop-grouping:%s:%s' % (d, bad['kind'])}))
+                        break
+                    sod['agree:' + d] += 1
+        chk.corr_result('render-setops', 3 * len(so_cases), div, first, dict(sod))
+        for (toks, k), o in zip(rt_cases, outs[rt_base:]):
+            ex = X.run_select(so_conn[k].conns[0], rtext_sql(toks))
+            ssd['chain-reading-vs-sqlite3'] += 1
+            lean = None if o.strip() == '!' else bag(parse_rows(o))
+            real = None if ex[0] != 'ok' else bag(ex[1])
+            if lean != real:
+                sdiv += 1
+                sfirst = sfirst or dict(what='sqlite reading of a compound chain: model vs sqlite3', structure=' '.join(toks),
+                                        sql=rtext_sql(toks), db=so_dbs[k], model=o.strip(), sqlite=ex[1])
+        chk.corr_result('semantics-setops', sum(ssd.values()), sdiv, sfirst, dict(ssd))
+        for db in so_conn:
+            db.close()
+        # --- round 5: FROM lists per nesting level, object identity of table clauses
+        div, first = 0, None
+        fd = collections.Counter()
+        for i, (c, o) in enumerate(zip(fs_cases, outs[fs_base:])):
+            model = o.strip()
+            ast = parse(c['text'])
+            if ast is None or norm_levels(ast_levels(ast)) != norm_levels(c['scope_levels']):
+                fd['unparsed-or-other-shape'] += 1
+                continue
+            c['ast'] = ast
+            for d in (DIALECTS if i % 3 == 0 else ('sqlite',)):
+                r = render(RD[d], ast)
+                if not isinstance(r, str):
+                    fd['renderer-raises'] += 1
+                    impl = '!' + str(r[1])[:80]
+                else:
+                    back = parse(r.replace('`', '"') if d != 'sqlite' else r)
+                    impl = levels_line(ast_levels(back)) if back is not None else '?unparsable: ' + r
+                fd['levels=%d' % len(c['scope_levels'])] += 1
+                chk.count(('FS', d, c['text']))
+                if impl != model:
+                    div += 1
+                    fd['DIFFERS'] += 1
+                    first = first or dict(statement=c['text'], dialect=d, model_from_lists=model, impl_from_lists=impl, rendered=r)
+        # the model's allocation discipline: every `to_table` call makes a new FromClause object
+        shapes = [('t', None), ('t', 'x'), ('s.t', None), ('s.t', 'x')]
+        for d in DIALECTS:
+            for nm, al in shapes:
+                node = A.Identifier(nm, alias=A.Identifier(al) if al else None)
+                a, b = RD[d].to_table(node), RD[d].to_table(A.Identifier(nm, alias=A.Identifier(al) if al else None))
+                fd['identity-probes'] += 1
+                if a is b or a is RD[d].to_table(node):
+                    div += 1
+                    first = first or dict(what='to_table returns the same FromClause object for two references', dialect=d,
+                                          table=nm, alias=al, model='a new object per reference (allocFresh)', impl='shared object')
+        chk.corr_result('render-from-scope', len(fs_cases) + 3 * len(shapes), div, first, dict(fd))
+        timing['round5-streams'] = round(time.time() - t_mark, 2)
 
     # ---------------------------------------------------------------- impl-level probe: execution
     prng = common.rng_for(chk.seed, 'C06/probe')
@@ -1176,6 +1502,26 @@ def run(chk):
             continue
         pdist['stmt:ddl-shape'] += 1
         P.check(dict(kind='dml', text=text, feats=['ddl-shape']), ast, ('sqlite', 'mysql', 'postgres'))
+    # (b'') round 5: nested expression sub-queries whose FROM lists repeat an enclosing entry (same alias / un-aliased), all dialects
+    t_mark = time.time()
+    for c in fs_cases:
+        ast = c.get('ast') or parse(c['text'])
+        if ast is None:
+            pdist['unparsed:nested-scope'] += 1
+            continue
+        if c.get('strs'):
+            # same two rules as for the generated statements of (c): a literal the parser decoded differently is C04's matter;
+            # backslashes in literals mean something else to MySQL (C07), so those mysql / postgres renderings are not judged
+            got = sorted({n.value for n in ast_nodes(ast) if isinstance(n, A.Constant) and isinstance(n.value, str)})
+            if not set(c['strs']) <= set(got) or not set(got) <= set(c['strs']) | {'x', '1', '%', '_', '1%', ''}:
+                pdist['parser-literal-mismatch(C04)'] += 1
+                continue
+        pdist['stmt:nested-scope'] += 1
+        for ft in c['feats']:
+            pdist['feat:' + ft.split(':')[0]] += 1
+        multi = not any('\\' in v for v in c.get('strs', ()))
+        P.check({k: v for k, v in c.items() if k != 'ast'}, ast, DIALECTS if multi else ('sqlite',))
+    timing['round5-scope-probe'] = round(time.time() - t_mark, 2)
     # (c) generated statements
     for i in range(n_stmt):
         c = g.statement()
@@ -1199,7 +1545,7 @@ def run(chk):
         P.check(c, ast, ('sqlite', 'mysql', 'postgres') if multi else ('sqlite',))
     for db in dbs:
         db.close()
-    chk.notes.append(dict(probe=dict(P.stats), generated=dict(pdist)))
+    chk.notes.append(dict(probe=dict(P.stats), generated=dict(pdist), timing=timing))
     os.makedirs(os.path.join(common.ROOT, 'replays'), exist_ok=True)
     json.dump([f for f in chk.failures if not f.get('kf')][:300], open(os.path.join(common.ROOT, 'replays', 'C06_new_failures.json'), 'w'),
               indent=1, default=str)
@@ -1211,7 +1557,7 @@ def run(chk):
     chk.samples.append(dict(theorem='C06_nested : ∀ env db n, evalNested env db (saRenderN n) = evalNested env db n'))
     chk.samples.append(dict(theorem='C06_dml : ∀ env db s, exec env db (saStmt s) = exec env db s;  C06_ddl_contents : insertAll (cols.map saSpec) rows new = insertAll (cols.map srcSpec) rows new'))
     chk.samples.append(dict(theorem='C06_grouping : inFragment F e → saOk π e → parse sqliteP (print (saParens π e)) = some (saParens π e) ∧ strip (saParens π e) = strip e'))
-    return chk.finish(assumptions=ASSUME, extra=dict(probe=dict(P.stats), generated=dict(pdist)))
+    return chk.finish(assumptions=ASSUME, extra=dict(probe=dict(P.stats), generated=dict(pdist), timing_s=timing))
 
 
 def X_lit(v):
@@ -1244,6 +1590,8 @@ def replay(path):
         a, b = value_of(conn, expr_sql(t), env), value_of(conn, rsql, env)
         print('REPRODUCED' if a != b else 'not reproduced', expr_sql(t), '=>', rsql, 'env', env, 'orig', a, 'rendered', b)
         return 1 if a != b else 0
+    if f.get('kind') == 'setop-tree':
+        return replay_setop(f)
     if f.get('from_ast'):
         ast = join_ast(f['from_ast']['join_type'], f['from_ast']['on'])
     else:
@@ -1256,12 +1604,49 @@ def replay(path):
     content = {k: tuple(tuple(r) for r in v) for k, v in f['db'].items()}
     db = X.Db(content)
     case = dict(kind=f['kind'], ordered=f.get('ordered', False), alias=[tuple(a) for a in f.get('alias', [])])
+    ex = f.get('exec_text') or f['text']
     if f['kind'] == 'select':
-        d = X.compare_select(db, f['text'], rend, case['ordered'], case['alias'], f.get('order_keys'))
+        d = X.compare_select(db, ex, rend, case['ordered'], case['alias'], f.get('order_keys'))
     else:
-        d = X.compare_dml(content, f['text'], rend)
+        d = X.compare_dml(content, ex, rend)
     bad = isinstance(d, dict)
-    print('REPRODUCED' if bad else 'not reproduced', '\n original:', f['text'], '\n rendered:', rend, '\n db:', content, '\n', d)
+    print('REPRODUCED' if bad else 'not reproduced', '\n original:', f['text'],
+          ('\n (executed in sqlite as: %s)' % ex) if ex != f['text'] else '', '\n rendered:', rend, '\n db:', content, '\n', d)
+    return 1 if bad else 0
+
+
+def replay_setop(f):
+    """a set-operation tree: the statement is parsed (or built) again, rendered for the dialect by the real renderer, and
+    its rows are compared with the rows of the tree -- sqlite: both executed by sqlite3 (the tree in its derived-table
+    form); mysql / postgres: the rendered text read the way the dialect reads a compound (Lean `denote`)"""
+    t = to_tuple(f['tree_t'])
+    d = f['dialect']
+    leaf_no = lambda n: X.SETOP_LEAVES.index(str(n)) if str(n) in X.SETOP_LEAVES else None
+    ast = parse(f['text'])
+    if ast is None or X.tree_of_ast(ast, leaf_no) != t:
+        ast = X.tree_ast(t, lambda i: parse(X.SETOP_LEAVES[i]))
+    R = renderer(d)
+    rend = render(R, ast)
+    content = {k: tuple(tuple(r) for r in v) for k, v in f['db'].items()}
+    st = X.setop_structure(rend, [render(R, parse(x)) for x in X.SETOP_LEAVES]) if isinstance(rend, str) else '?!'
+    line = 'SX %s ; %s ; %s' % (tabs_txt(content), X.tree_line(t), ' ; '.join([st if not st.startswith('?') else 'S0'] * 3))
+    parts = [x.strip() for x in common.lean_run('Render', [line])[0].split(' | ')]
+    want = bag(parse_rows(parts[4]))
+    j = DIALECTS.index(d)
+    got, how = None, ''
+    if d == 'sqlite' and isinstance(rend, str):
+        db = X.Db(content)
+        ref, ex = X.run_select(db.conns[0], X.tree_ref_sql(t)), X.run_select(db.conns[0], rend)
+        how = 'sqlite3: tree as %s -> %s; rendered -> %s' % (X.tree_ref_sql(t), ref[1], ex[1])
+        bad = ex[0] != 'ok' or bag(ex[1]) != bag(ref[1]) or bag(ex[1]) != want
+    elif st.startswith('?'):
+        bad, how = True, 'the renderer raised / printed something else: %s' % (rend,)
+    else:
+        got = parts[5 + j]
+        how = 'text structure %s read by %s (Lean denote) -> %s' % (st, d, got)
+        bad = got == '!' or bag(parse_rows(got)) != want
+    print('REPRODUCED' if bad else 'not reproduced', '\n statement:', f['text'], '\n tree:', X.tree_line(t), '\n dialect:', d,
+          '\n rendered:', rend, '\n db:', content, '\n rows of the tree:', want, '\n', how)
     return 1 if bad else 0
 
 
